@@ -154,6 +154,65 @@ pub fn scenarios(cfg: &str) -> Vec<Vec<Ev>> {
         // notified receiver, value stolen, re-register, close with parked sender and notified receiver
         v.push(vec![e(RECV_CREATE, 0, 0), e(RECV_POLL, 0, 0), e(RECV_CREATE, 1, 0), e(RECV_POLL, 1, 0), e(TRY_SEND, 0, 0), e(TRY_RECV, 0, 0), e(RECV_POLL, 0, 1), e(TRY_SEND, 0, 0), e(RECV_DROP, 1, 0), e(CLOSE, 0, 0), e(RECV_POLL, 0, 0)]);
     }
+    // deep queues (receivers): n receivers parked on the empty channel, interior ones cancelled, then one value
+    // per remaining receiver arrives through send futures; at the end the channel is closed
+    for (n, cancel, newest_first) in crate::hist::deep_queue_patterns(&[5, 6]) {
+        let mut s = vec![];
+        for i in 0..n {
+            s.push(e(RECV_CREATE, i, 0));
+            s.push(e(RECV_POLL, i, (i % 2) as u8));
+        }
+        for c in &cancel {
+            s.push(e(RECV_DROP, *c, 0));
+        }
+        let rest = crate::hist::deep_rest(n, &cancel);
+        for (j, r) in rest.iter().enumerate() {
+            if j + 1 == rest.len() {
+                s.push(e(CLOSE, 0, 0));
+            } else {
+                s.push(e(SEND_CREATE, j as u8, 0));
+                s.push(e(SEND_POLL, j as u8, 0));
+            }
+            if newest_first {
+                for i in rest.iter().rev() {
+                    s.push(e(RECV_POLL, *i, 1));
+                }
+            } else {
+                s.push(e(RECV_POLL, *r, 1));
+            }
+            s.push(e(SEND_POLL, j as u8, 1));
+        }
+        v.push(s);
+    }
+    // deep queues (senders): buffer full, n senders parked, interior ones dropped / cancelled, then the receiver drains
+    for (n, cancel, newest_first) in crate::hist::deep_queue_patterns(&[5, 6]) {
+        let mut s = vec![e(TRY_SEND, 0, 0); cap as usize];
+        for i in 0..n {
+            s.push(e(SEND_CREATE, i, 0));
+            s.push(e(SEND_POLL, i, (i % 2) as u8));
+        }
+        for (x, c) in cancel.iter().enumerate() {
+            s.push(e(if x == 0 { SEND_DROP } else { SEND_CANCEL }, *c, 0));
+        }
+        let rest = crate::hist::deep_rest(n, &cancel);
+        for round in 0..rest.len() + cap as usize {
+            if cap == 0 {
+                s.push(e(RECV_CREATE, 0, 0));
+                s.push(e(RECV_POLL, 0, 0));
+                s.push(e(RECV_DROP, 0, 0));
+            } else {
+                s.push(e(TRY_RECV, 0, 0));
+            }
+            if newest_first {
+                for i in rest.iter().rev() {
+                    s.push(e(SEND_POLL, *i, 1));
+                }
+            } else if round < rest.len() {
+                s.push(e(SEND_POLL, rest[round], 1));
+            }
+        }
+        v.push(s);
+    }
     v.push(vec![e(STREAM_CREATE, 0, 0), e(STREAM_POLL, 0, 0), e(SEND_CREATE, 0, 0), e(SEND_POLL, 0, 0), e(STREAM_POLL, 0, 1), e(SEND_POLL, 0, 0), e(CLOSE, 1, 0), e(STREAM_POLL, 0, 0), e(STREAM_POLL, 0, 0)]);
     v
 }
